@@ -280,7 +280,6 @@ func runScenario(seed int64, idx int, kind string) (out scenarioOut) {
 		on := nw.nodes[origin]
 		ctxB, stopB := context.WithCancel(context.Background())
 		defer stopB()
-		go on.g.RunTransactionGossip(ctxB)
 		const nBurst = 40
 		var hashes [][32]byte
 		for i := 0; i < nBurst; i++ {
@@ -293,6 +292,8 @@ func runScenario(seed int64, idx int, kind string) (out scenarioOut) {
 			on.hip.SaveAwaitedTransaction(&t)
 			on.jug.SendTrx(pt)
 		}
+		time.Sleep(5 * time.Millisecond)
+		go on.g.RunTransactionGossip(ctxB) // the gossip loop gets to the pipe only now (it was busy): nothing handed over may be lost
 		nw.settle(nBurst * len(adj[origin]))
 		n := 0
 		quiet := func() bool { // nothing in flight: the queue stays empty for 300 ms (forwards are made by goroutines)
@@ -654,7 +655,7 @@ func runScenario(seed int64, idx int, kind string) (out scenarioOut) {
 	}
 	out.stats["kind."+kind]++
 	out.trace = phase()
-	if kind == "trx" && idx%2 == 0 {
+	if kind == "trx" && (idx/4)%2 == 0 {
 		// the awaited transaction is now sealed in a vertex at the origin (the normal contract flow) and the vertex is gossiped while
 		// the transaction's hash is still in every node's duplicate-suppression memory: it is a different item and must reach everybody
 		if v, err := on.ab.CreateLeaf(context.Background(), &trxItem); err == nil {
